@@ -88,7 +88,7 @@ CHECKS = {
 }
 
 # properties whose check is built and registered
-BUILT = ["C09", "C11", "C14", "C15", "C16", "C17", "C20"]
+BUILT = ["C09", "C11", "C14", "C15", "C16", "C17", "C18", "C20"]
 
 
 def main() -> None:
